@@ -31,6 +31,9 @@ var intRoots = []root{
 	{"rtree", "RTree.Count", false}, {"rtree", "RTree.Extent", false},
 	// geom/twkb_parser.go: the guard every element count read from untrusted input goes through
 	{"geom", "twkbParser.checkCount", false},
+	// geom/wkb_parser.go: the byte reader (parseUint32 and parseByteOrder were probed and are outside the fragment:
+	// binary.BigEndian / the package variable nativeOrder)
+	{"geom", "wkbParser.readByte", false},
 	// Not listed, because outside the fragment (each would be `untranslatable`):
 	//  - rtree/bulk.go:quickPartition: a function without results whose func literals rnd / swap assign the
 	//    variables they capture (rndState, items) and whose outer loop `for { .. }` has no condition from which
